@@ -85,22 +85,18 @@ Proof.
   - intros x R. eapply Back; [exact R|constructor].
 Qed.
 
-(* ---- below a live locked root that did not become locked through memmap_, everything is locked (and live) ------------ *)
-Definition no_mm (h : heap) (r : nat) : Prop := forall x nd, Reach h r x -> lookup h x = Some nd -> mm nd = false.
-
-Lemma tree_locked_of_root : forall s r, Inv s -> flag_true (hp s) r = true -> live s r = true -> no_mm (hp s) r ->
+(* ---- below a live locked root everything is locked (and live) --------------------------------------------------------- *)
+Lemma tree_locked_of_root : forall s r, Inv s -> flag_true (hp s) r = true -> live s r = true ->
   tree_locked (hp s) r /\ (forall x, Reach (hp s) r x -> live s x = true).
 Proof.
-  intros s r HI F L NM.
-  assert (Gen : forall a x, Reach (hp s) a x -> Reach (hp s) r a -> flag_true (hp s) a = true -> live s a = true ->
+  intros s r HI F L.
+  assert (Gen : forall a x, Reach (hp s) a x -> flag_true (hp s) a = true -> live s a = true ->
                   flag_true (hp s) x = true /\ live s x = true).
-  { intros a x R. induction R as [a|a c x Hc R IH]; intros Ra Fa La; [split; assumption|].
+  { intros a x R. induction R as [a|a c x Hc R IH]; intros Fa La; [split; assumption|].
     destruct (child_lookup _ _ _ Hc) as [nd [E Hin]].
     assert (Lc : live s c = true) by (eapply (inv_I0 _ HI); eassumption).
-    destruct (inv_I1 _ HI a Fa La nd c E Hin) as [M|[Fc _]].
-    - rewrite (NM a nd Ra E) in M. discriminate.
-    - apply IH; [eapply Reach_trans; [exact Ra|apply Reach_child; exact Hc]|exact Fc|exact Lc]. }
-  split; intros x R; eapply Gen; try eassumption; constructor.
+    destruct (inv_I1 _ HI a Fa La nd c E Hin) as [Fc _]. apply IH; assumption. }
+  split; intros x R; eapply Gen; eassumption.
 Qed.
 
 (* ---- every guarded call keeps what is locked -------------------------------------------------------------------------- *)
@@ -290,10 +286,7 @@ Proof.
     destruct (select_ents (ents nd) (dedup_keys ks [])) as [e|] eqn:S; [|same_state H]. inversion H. subst. split.
     + eapply set_ents_locked_kept; [exact E|eapply td_flag_false; eassumption].
     + intros x Lx. unfold set_node_ents in Lx. rewrite E in Lx. exact Lx.
-  - (* exclude(inplace=True): unguarded while D8 is there; with the fix it is one more guarded single-node change *)
-    destruct (is_td s n) eqn:T; cbn [negb] in H; [|same_state H].
-    assert (Fx : fixed_D8 = true) by (destruct fixed_D8 eqn:E; [reflexivity|exfalso; apply NU; cbn; exact E]).
-    rewrite Fx in H. cbn [andb] in H.
+  - destruct (is_td s n) eqn:T; cbn [negb] in H; [|same_state H].
     destruct (td_flag s n) eqn:TF; [same_state H|].
     destruct (is_td_spec _ _ T) as (nd & E & K & L). rewrite E in H. inversion H. subst. split.
     + eapply set_ents_locked_kept; [exact E|eapply td_flag_false; eassumption].
@@ -336,10 +329,7 @@ Lemma unlock_relock_is_plock : forall fuel s n h1 subs s2 h3,
 Proof.
   intros fuel s n h1 subs s2 h3 PU Ck LK.
   destruct (punlock_spec _ _ _ _ _ PU) as (Un & Fr & Cl & Sub & Dp).
-  unfold lock_ in LK. destruct (is_locked fuel (hp s2) n) as [[|]|] eqn:IL; [| |discriminate]; [|exact LK].
-  assert (true = false); [|discriminate]. eapply is_locked_cleared; [|exact IL].
-  intros x R. rewrite (chk_flag _ _ _ Ck). cbn. apply Cl.
-  eapply same_struct_reach; [|exact R]. apply same_struct_sym. eapply same_struct_trans; [apply Un|apply Ck].
+  unfold lock_ in LK. rewrite (chk_flag _ _ _ Ck) in LK. cbn in LK. rewrite (Cl n (Reach_refl _ n)) in LK. exact LK.
 Qed.
 
 Lemma unlock_facts : forall fuel s n s' out, unlock_ fuel s n = Some (s', out) ->
@@ -448,11 +438,11 @@ Qed.
 
 Lemma chk_has_parent_back : forall s s' c p, chk s s' -> has_parent (hp s') c p -> has_parent (hp s) c p.
 Proof.
-  intros s s' c p C HP. induction HP as [c nd p E K I|c nd m p E K I _ IH].
+  intros s s' c p C HP. induction HP as [c nd p E I|c nd m p E K I _ IH].
   - pose proof (c_struct _ _ C c) as Hs. unfold same_node_structure in Hs. rewrite E in Hs.
-    destruct (lookup (hp s) c) as [y|] eqn:Hy; [|contradiction]. destruct Hs as [Hk He].
+    destruct (lookup (hp s) c) as [y|] eqn:Hy; [|contradiction].
     destruct (c_node _ _ C c y nd Hy E) as (_ & _ & _ & [P|[P _]]).
-    + eapply HP_td; [exact Hy|congruence|rewrite <- P; exact I].
+    + eapply HP_own; [exact Hy|rewrite <- P; exact I].
     + rewrite P in I. destruct I.
   - pose proof (c_struct _ _ C c) as Hs. unfold same_node_structure in Hs. rewrite E in Hs.
     destruct (lookup (hp s) c) as [y|] eqn:Hy; [|contradiction]. destruct Hs as [Hk He].
@@ -461,10 +451,10 @@ Qed.
 
 Lemma unl_has_parent_back : forall h h' c p, unl h h' -> has_parent h' c p -> has_parent h c p.
 Proof.
-  intros h h' c p [S N] HP. induction HP as [c nd p E K I|c nd m p E K I _ IH].
+  intros h h' c p [S N] HP. induction HP as [c nd p E I|c nd m p E K I _ IH].
   - pose proof (S c) as Hs. unfold same_node_structure in Hs. rewrite E in Hs.
-    destruct (lookup h c) as [y|] eqn:Hy; [|contradiction]. destruct Hs as [Hk He].
-    destruct (N c y nd Hy E) as (P & _). eapply HP_td; [exact Hy|congruence|rewrite P; exact I].
+    destruct (lookup h c) as [y|] eqn:Hy; [|contradiction].
+    destruct (N c y nd Hy E) as (P & _). eapply HP_own; [exact Hy|rewrite P; exact I].
   - pose proof (S c) as Hs. unfold same_node_structure in Hs. rewrite E in Hs.
     destruct (lookup h c) as [y|] eqn:Hy; [|contradiction]. destruct Hs as [Hk He].
     eapply HP_lazy; [exact Hy|congruence| |exact IH]. unfold node_children in *. rewrite He. exact I.
@@ -502,36 +492,26 @@ Lemma op_unlock_dec : forall o, (exists n, o = OUnlock n) \/ (forall n, o <> OUn
 Proof. destruct o; try (right; intros; discriminate). left. eauto. Qed.
 
 Theorem locked_frozen_step : forall fuel s o s' out r,
-  Inv s -> in_scope o -> step fuel s o = Some (s', out) -> ~ unguarded o ->
-  flag_true (hp s) r = true -> live s r = true -> no_mm (hp s) r ->
+  Inv s -> step fuel s o = Some (s', out) -> ~ unguarded o ->
+  flag_true (hp s) r = true -> live s r = true ->
   tree_unchanged (hp s) (hp s') r /\
-  (tree_locked (hp s') r \/ (exists n, o = OUnlock n /\ out = Done /\ flag_true (hp s') r = false)) /\
-  no_mm (hp s') r.
+  (tree_locked (hp s') r \/ (exists n, o = OUnlock n /\ out = Done /\ flag_true (hp s') r = false)).
 Proof.
-  intros fuel s o s' out r HI SC H NU Fr Lr NM.
-  destruct (tree_locked_of_root s r HI Fr Lr NM) as [TL _].
+  intros fuel s o s' out r HI H NU Fr Lr.
+  destruct (tree_locked_of_root s r HI Fr Lr) as [TL _].
   destruct (op_unlock_dec o) as [[n ->]|NUn].
-  - pose proof (step_inv _ _ _ _ _ HI SC H) as HI'. cbn [step] in H.
+  - pose proof (step_inv _ _ _ _ _ HI H) as HI'. cbn [step] in H.
     destruct (exists_live s n); cbn [negb] in H.
-    2:{ inversion H. subst. split; [intros x _; apply same_struct_refl|]. split; [left; exact TL|exact NM]. }
+    2:{ inversion H. subst. split; [intros x _; apply same_struct_refl|]. left; exact TL. }
     destruct (unlock_facts _ _ _ _ _ H) as (S & D & Mm & Out).
-    assert (NM' : no_mm (hp s') r).
-    { intros x b R Eb. assert (R0 : Reach (hp s) r x) by (eapply same_struct_reach; [apply same_struct_sym; exact S|exact R]).
-      pose proof (S x) as Hs. unfold same_node_structure in Hs. rewrite Eb in Hs.
-      destruct (lookup (hp s) x) as [a|] eqn:Ea; [|contradiction].
-      destruct (mm b) eqn:Mb; [|reflexivity]. rewrite <- (NM x a R0 Ea). symmetry. eapply Mm; eassumption. }
-    split; [intros x _; apply S|]. split; [|exact NM'].
+    split; [intros x _; apply S|].
     destruct (flag_true (hp s') r) eqn:Fr'.
-    + left. apply (tree_locked_of_root s' r HI' Fr'); [|exact NM']. unfold live in *. rewrite D. exact Lr.
+    + left. apply (tree_locked_of_root s' r HI' Fr'). unfold live in *. rewrite D. exact Lr.
     + right. exists n. split; [reflexivity|]. split; [|reflexivity].
       destruct Out as [-> | ->]; [reflexivity|]. rewrite (unlock_raised_restores _ _ _ _ _ H r Fr) in Fr'. discriminate.
   - destruct (step_locked_kept _ _ _ _ _ H NU NUn) as [K _].
     destruct (kept_tree _ _ r K TL) as (TU & TL' & Back).
-    split; [exact TU|]. split; [left; exact TL'|].
-    intros x b R Eb. pose proof (Back x R) as R0. pose proof (K x (TL x R0)) as Kx. unfold node_kept in Kx.
-    destruct (lookup (hp s) x) as [a|] eqn:Ea.
-    + rewrite Eb in Kx. destruct Kx as (_ & _ & M & _). rewrite <- M. eapply NM; eassumption.
-    + pose proof (TL x R0) as F. unfold flag_true in F. rewrite Ea in F. discriminate.
+    split; [exact TU|left; exact TL'].
 Qed.
 
 Lemma tree_unchanged_reach : forall h h' r x, tree_unchanged h h' r -> Reach h r x -> Reach h' r x.
@@ -564,31 +544,30 @@ Fixpoint stays_locked (ff : st -> nat) (s : st) (ops : list op) (r : nat) : Prop
   end.
 
 Theorem locked_frozen_run : forall ff ops s s' outs r,
-  Inv s -> Forall in_scope ops -> Forall (fun o => ~ unguarded o) ops -> run ff s ops = Some (s', outs) ->
-  flag_true (hp s) r = true -> live s r = true -> no_mm (hp s) r -> stays_locked ff s ops r ->
+  Inv s -> Forall (fun o => ~ unguarded o) ops -> run ff s ops = Some (s', outs) ->
+  flag_true (hp s) r = true -> live s r = true -> stays_locked ff s ops r ->
   tree_unchanged (hp s) (hp s') r /\ tree_locked (hp s') r.
 Proof.
-  intros ff. induction ops as [|o ops IH]; intros s s' outs r HI SC NU H Fr Lr NM SL; cbn in H.
-  - inversion H. subst. split; [intros x _; apply same_struct_refl|]. apply (tree_locked_of_root s' r HI Fr Lr NM).
+  intros ff. induction ops as [|o ops IH]; intros s s' outs r HI NU H Fr Lr SL; cbn in H.
+  - inversion H. subst. split; [intros x _; apply same_struct_refl|]. apply (tree_locked_of_root s' r HI Fr Lr).
   - cbn in SL. destruct (step (ff s) s o) as [[s1 out]|] eqn:St; [|discriminate].
     destruct (run ff s1 ops) as [[s2 outs2]|] eqn:R; [|discriminate]. inversion H. subst s2 outs. clear H.
-    inversion SC. subst. inversion NU. subst. destruct SL as (F1 & L1 & SL1).
-    destruct (locked_frozen_step _ _ _ _ _ r HI H1 St H3 Fr Lr NM) as (TU1 & _ & NM1).
-    destruct (IH s1 s' outs2 r (step_inv _ _ _ _ _ HI H1 St) H2 H4 R F1 L1 NM1 SL1) as [TU2 TL2].
+    inversion NU. subst. destruct SL as (F1 & L1 & SL1).
+    destruct (locked_frozen_step _ _ _ _ _ r HI St H1 Fr Lr) as (TU1 & _).
+    destruct (IH s1 s' outs2 r (step_inv _ _ _ _ _ HI St) H2 R F1 L1 SL1) as [TU2 TL2].
     split; [eapply tree_unchanged_trans; eassumption|exact TL2].
 Qed.
 
 (* ---------------------------------------------------------------------------------------------- member_cannot_unlock, shared_node *)
 Theorem member_cannot_unlock : forall fuel s q n s' out,
   Inv s -> child (hp s) q n -> flag_true (hp s) q = true -> live s q = true ->
-  (forall nd, lookup (hp s) q = Some nd -> mm nd = false) ->
   step fuel s (OUnlock n) = Some (s', out) ->
   out = Raised ELock /\ same_struct (hp s) (hp s') /\ dead s' = dead s /\
   (forall x, flag_true (hp s) x = true -> flag_true (hp s') x = true).
 Proof.
-  intros fuel s q n s' out HI Hc Fq Lq Mq H.
+  intros fuel s q n s' out HI Hc Fq Lq H.
   destruct (child_lookup _ _ _ Hc) as [nd [E Hin]].
-  destruct (inv_I1 _ HI q Fq Lq nd n E Hin) as [M|[Fn HP]]; [rewrite (Mq nd E) in M; discriminate|].
+  destruct (inv_I1 _ HI q Fq Lq nd n E Hin) as [Fn HP].
   assert (Ln : live s n = true) by (eapply (inv_I0 _ HI); eassumption).
   cbn [step] in H. unfold exists_live in H. apply flag_true_lookup in Fn. destruct Fn as [ndn [En _]].
   rewrite En, Ln in H. cbn [negb] in H.
@@ -600,14 +579,13 @@ Qed.
 
 Theorem shared_node : forall fuel s r1 c p s' out,
   Inv s -> Reach (hp s) r1 c -> child (hp s) p c -> ~ Reach (hp s) r1 p ->
-  flag_true (hp s) p = true -> live s p = true -> (forall nd, lookup (hp s) p = Some nd -> mm nd = false) ->
-  exists_live s r1 = true ->
+  flag_true (hp s) p = true -> live s p = true -> exists_live s r1 = true ->
   step fuel s (OUnlock r1) = Some (s', out) ->
   out = Raised ELock /\ (forall x, flag_true (hp s) x = true -> flag_true (hp s') x = true).
 Proof.
-  intros fuel s r1 c p s' out HI Rc Hc NR Fp Lp Mp X H.
+  intros fuel s r1 c p s' out HI Rc Hc NR Fp Lp X H.
   destruct (child_lookup _ _ _ Hc) as [nd [E Hin]].
-  destruct (inv_I1 _ HI p Fp Lp nd c E Hin) as [M|[Fc HP]]; [rewrite (Mp nd E) in M; discriminate|].
+  destruct (inv_I1 _ HI p Fp Lp nd c E Hin) as [Fc HP].
   cbn [step] in H. rewrite X in H. cbn [negb] in H.
   assert (Out : out = Raised ELock).
   { eapply unlock_blocked; [exact H|exact Rc|exact Hc|exact HP|exact Fp|exact Lp|]. intros R. contradiction. }
@@ -677,30 +655,25 @@ Proof.
   destruct (lock_ lf (hp (fst (alloc_node s1 nd'))) (nxt s1)) as [h3|] eqn:LK; [|discriminate].
   inversion H. subst s' memo' c. cbn. split; [reflexivity|].
   assert (Ec : lookup (hp (fst (alloc_node s1 nd'))) (nxt s1) = Some nd') by (apply lookup_alloc_new; apply I1').
-  unfold lock_ in LK. destruct lf as [|lf']; [discriminate|].
-  assert (IL : is_locked (S lf') (hp (fst (alloc_node s1 nd'))) (nxt s1) = Some false) by (cbn [is_locked]; rewrite Ec; reflexivity).
-  rewrite IL in LK. eapply plock_flag_self; [exact LK|exact Ec].
+  unfold lock_ in LK. assert (FF : flag_true (hp (fst (alloc_node s1 nd'))) (nxt s1) = false) by (unfold flag_true; rewrite Ec; reflexivity).
+  rewrite FF in LK. destruct lf as [|lf']; [discriminate|]. eapply plock_flag_self; [exact LK|exact Ec].
 Qed.
 
 (* ---------------------------------------------------------------------------------------------- lock_ covers the tree *)
 Theorem lock_covers_tree : forall fuel s r s',
-  Inv s -> exists_live s r = true ->
-  (is_locked fuel (hp s) r = Some false \/ (flag_true (hp s) r = true /\ no_mm (hp s) r)) ->
-  step fuel s (OLock r) = Some (s', Done) ->
+  Inv s -> exists_live s r = true -> step fuel s (OLock r) = Some (s', Done) ->
   tree_locked (hp s') r /\ tree_unchanged (hp s) (hp s') r.
 Proof.
-  intros fuel s r s' HI X Pre H. cbn [step] in H. rewrite X in H. cbn [negb] in H.
+  intros fuel s r s' HI X H. cbn [step] in H. rewrite X in H. cbn [negb] in H.
   destruct (lock_ fuel (hp s) r) as [h|] eqn:L; [|discriminate]. inversion H. subst s'. cbn.
   pose proof (lock_grows _ _ _ _ L) as G.
   split; [|intros x _; apply G].
-  destruct Pre as [IL|[F NM]].
-  - unfold lock_ in L. rewrite IL in L. intros x R.
+  apply exists_live_spec in X. destruct X as [Xr Lr].
+  unfold lock_ in L. destruct (flag_true (hp s) r) eqn:F.
+  - inversion L. subst h. apply (tree_locked_of_root s r HI F Lr).
+  - intros x R.
     assert (R0 : Reach (hp s) r x) by (eapply same_struct_reach; [apply same_struct_sym; apply G|exact R]).
     eapply plock_reach_flag; [exact L|exact R0|].
-    apply exists_live_spec in X. destruct X as [Xr _].
     clear - R0 Xr HI. induction R0 as [n|n c m Hc _ IH]; [exact Xr|]. apply IH.
     destruct (inv_closed _ HI) as [C1 _]. eapply C1. exact Hc.
-  - apply exists_live_spec in X. destruct X as [_ Lr].
-    destruct (tree_locked_of_root s r HI F Lr NM) as [TL _].
-    intros x R. eapply grows_flag; [exact G|]. apply TL. eapply same_struct_reach; [apply same_struct_sym; apply G|exact R].
 Qed.
